@@ -8,14 +8,14 @@ from checks.c10 import ENUMS
 EPS = 1e-6
 
 
-def inject(sym, cpm, tag, at_least, pattern):
+def inject(sym, cpm, tag, at_least, pattern, hmax=1000):
     """put symbolic hit counts into a coverpoint/cross model, keeping the representation invariant
     (unhit_s = indices whose count is below at_least, cached coverage invalid).
     pattern: 'fork' = every covered/uncovered combination (2^bins paths); 'all'/'none'/'alt' = one fixed combination,
     the counts stay symbolic inside their region"""
     hs = []
     for i in range(len(cpm.hit_l)):
-        h = sym.int("%s_h%d" % (tag, i), 0, 1000)
+        h = sym.int("%s_h%d" % (tag, i), 0, hmax)
         cpm.hit_l[i] = h
         hs.append(h)
     cpm.unhit_s.clear()
@@ -58,9 +58,9 @@ def build(item):
         for (tag, m), pat in zip(models, pats):
             m.coverage_calc_valid = False
             for ci, cp in enumerate(spec["cps"]):
-                inject(sym, m.coverpoint_l[ci], "%s_%s" % (tag, cp["name"]), opt(cp, "at_least", 1), pat)
+                inject(sym, m.coverpoint_l[ci], "%s_%s" % (tag, cp["name"]), opt(cp, "at_least", 1), pat, item.get("hmax", 1000))
             for xi, cr in enumerate(spec.get("crosses", [])):
-                inject(sym, m.cross_l[xi], "%s_%s" % (tag, cr["name"]), opt(cr, "at_least", 1), pat if pat != "fork" else "alt")
+                inject(sym, m.cross_l[xi], "%s_%s" % (tag, cr["name"]), opt(cr, "at_least", 1), pat if pat != "fork" else "alt", item.get("hmax", 1000))
         # snapshot of the in-memory state (terms, names)
         def snap():
             out = []
@@ -167,6 +167,34 @@ def build(item):
             sym.check("instance_names_after_rename", names_ok([i.name for i in t2.covergroups]) and t2.covergroups[-1].name == "renamed_late")
             for k in range(min(ninst, len(t2.covergroups))):
                 cmp_cg(t2.covergroups[k], insts[k].get_model(), "second_report:inst%d:" % k)
+        if item.get("resample"):
+            # the percentages were queried above (and may be cached); one more sample arrives on every instance, then the report and
+            # the in-memory numbers must agree again
+            for k, cg in enumerate(insts):
+                args = []
+                for cp in spec["cps"]:
+                    lo, hi = covref.type_range(cp["type"])
+                    args.append(sym.int("rs%d_%s" % (k, cp["name"]), lo, hi))
+                cg.sample(*args)
+            with contextlib.redirect_stdout(io.StringIO()):
+                rpt3 = vsc.get_coverage_report_model()
+            t3 = rpt3.covergroups[0]
+            cmp_cg(t3, tm, "after_sample:type:")
+            for k in range(min(ninst, len(t3.covergroups))):
+                cmp_cg(t3.covergroups[k], insts[k].get_model(), "after_sample:inst%d:" % k)
+        if item.get("late_variant"):
+            # a second parameterised variant of the same covergroup class is instantiated after reports were taken
+            ov, _ = covref.build_cg(vsc, item["late_variant"], enum_classes)
+            with contextlib.redirect_stdout(io.StringIO()):
+                rpt4 = vsc.get_coverage_report_model()
+            sym.check("late_variant_two_types", len(rpt4.covergroups) == 2)
+            if len(rpt4.covergroups) == 2:
+                sizes = sorted(len(t.covergroups) for t in rpt4.covergroups)
+                sym.check("late_variant_instances", sizes == sorted([ninst, 1]))
+                om = ov.get_model()
+                found = [t for t in rpt4.covergroups if len(t.coverpoints) == len(om.coverpoint_l) and
+                         [len(c.bins) for c in t.coverpoints] == [c.get_n_bins() for c in om.coverpoint_l] and t is not None]
+                sym.check("late_variant_reported_with_its_bins", len(found) >= 1)
         # text rendering: every bin name appears (structure only; counts are symbolic)
         if item.get("text") and not sym.symbolic:
             with contextlib.redirect_stdout(io.StringIO()):
@@ -294,6 +322,20 @@ def shapes(t, sd):
     for pats in (["fork", "alt"], ["alt", "fork"], ["all", "none"]):
         items.append(dict(spec=spec, ninst=1, shape="2cp+cross", max_seconds=300, text=(pats[0] == "all"), patterns=pats))
     items.append(dict(spec=spec, ninst=2, shape="2cp+cross", max_seconds=300, patterns=["alt", "all", "none"]))
+    # cached percentages: query, sample again (counts just below at_least can be completed), report again
+    for al in (1, 2, 3):
+        for pats in (["none", "none"], ["alt", "alt"], ["all", "none"]):
+            c = {"name": "p1", "type": ["u", 2], "bins": [["lo", "bin", [[0, 1]]], ["hi", "array", None, [[2, 3]]]], "at_least": al}
+            items.append(dict(spec={"cps": [c]}, ninst=1, shape="resample at_least=%d" % al, patterns=pats, resample=True, hmax=al))
+    c1 = {"name": "p1", "type": ["u", 2], "bins": [["lo", "bin", [[0, 1]]], ["hi", "bin", [[2, 3]]]], "at_least": 2}
+    c2 = {"name": "p2", "type": ["u", 1], "bins": [["b", "array", None, [[0, 1]]]]}
+    items.append(dict(spec={"cps": [c1, c2], "crosses": [{"name": "x", "cps": ["p1", "p2"], "at_least": 2}]}, ninst=1, shape="resample 2cp+cross", patterns=["alt", "none"],
+                      resample=True, hmax=2, max_seconds=300))
+    # a second parameterised variant appears after reports were taken
+    va = {"cps": [{"name": "p1", "type": ["u", 3], "bins": [["a", "array", None, [[0, 2]]]]}]}
+    vb = {"cps": [{"name": "p1", "type": ["u", 3], "bins": [["a", "array", None, [[0, 3]]]]}]}
+    for ninst in (1, 2):
+        items.append(dict(spec=va, ninst=ninst, shape="late variant", patterns=["all"] + ["alt"] * ninst, late_variant=vb, rename=(ninst == 2)))
     # seeded random covergroup populations
     rnd = random.Random(sd)
 
